@@ -261,6 +261,16 @@ impl Property for C07 {
                 }
                 idx
             };
+            // a run that prints nothing (statistics only) consumes the same lines
+            if !aggregate && bad.is_none() {
+                let silent = run_batch(&limited.tables, &limited.statement, &limited_files, RunOptions { print_result: false, ..RunOptions::default() }).map_err(panic_fail)?;
+                if silent.total_lines != l.total_lines || silent.result.is_err() != l.result.is_err() {
+                    return Err(Failure::new(
+                        format!("consumption: silent run differs: {}", class),
+                        format!("LIMIT {}: the run that prints consumed {} lines, the same run with print_result = false consumed {}\n  {}", n, l.total_lines, silent.total_lines, context),
+                    ));
+                }
+            }
             if l.total_lines != expected_consumed {
                 return Err(Failure::new(
                     format!("consumption: {}", class),
